@@ -38,94 +38,8 @@ theorem C07_rmslice_spec (t : Testcase) (h : t.WF) (a b : Option Int)
     ∃ t', t.rmslice? a b = some t' ∧ t'.before = t.before ∧ t'.after = t.after ∧ t'.WF ∧
       t'.parts.zip t'.reducible
         = eraseRanks (clamp t.len a 0) (clamp t.len b t.len) 0 (t.parts.zip t.reducible) ∧
-      t'.len = t.len - (clamp t.len b t.len - clamp t.len a 0) := by
-  have ha := clamp_le t.len a 0 (Nat.zero_le _)
-  have hb := clamp_le t.len b t.len (Nat.le_refl _)
-  obtain ⟨s, hs, hsl, hsc⟩ := opts_get t h _ ha
-  obtain ⟨e, he, hel, hec⟩ := opts_get t h _ hb
-  have hraw : t.rmslice? a b = some (t.rmsliceRaw s e) := by
-    simp only [rmslice?, sliceXlat, hs, he]
-  generalize clamp t.len a 0 = A at *
-  generalize clamp t.len b t.len = B at *
-  have hn := len_eq_count t h
-  have hwf : t.parts.length = t.reducible.length := h
-  -- s ≤ e, because the number of reducible entries before an index is monotone in the index
-  have hse : s ≤ e := by
-    rcases Nat.lt_or_ge A B with hlt | hge
-    · rcases Nat.lt_or_ge e s with h1 | h2
-      · have := count_take_mono t.reducible (Nat.le_of_lt h1); omega
-      · exact h2
-    · have hAB : A = B := by omega
-      subst hAB
-      have : some s = some e := by rw [← hs, ← he]
-      injection this with this; omega
-  refine ⟨_, hraw, rfl, rfl, ?_, ?_, ?_⟩
-  · -- the two lists stay aligned
-    simp only [WF, rmsliceRaw, List.length_append, List.length_take, List.length_drop,
-      List.length_replicate]
-    omega
-  · -- exactly the ranks [A, B) disappear
-    let z := t.parts.zip t.reducible
-    have hzlen : z.length = t.reducible.length := by simp [z, List.length_zip, hwf]
-    have hzsnd : z.map (·.2) = t.reducible := map_snd_zip _ _ hwf
-    have hsplit : z = z.take s ++ ((z.drop s).take (e - s) ++ z.drop e) := by
-      have h1 : (z.drop s).take (e - s) ++ z.drop e = z.drop s := by
-        have : z.drop e = (z.drop s).drop (e - s) := by
-          rw [List.drop_drop]; congr 1; omega
-        rw [this, List.take_append_drop]
-      rw [h1, List.take_append_drop]
-    have hc1 : ((z.take s).map (·.2)).count true = A := by
-      rw [List.map_take, hzsnd]; exact hsc
-    have hc2 : (((z.drop s).take (e - s)).map (·.2)).count true = B - A := by
-      have htot : ((z.take e).map (·.2)).count true = B := by
-        rw [List.map_take, hzsnd]; exact hec
-      have : z.take e = z.take s ++ (z.drop s).take (e - s) := by
-        have h2 : z.take s = (z.take e).take s := by
-          rw [List.take_take]; congr 1; omega
-        have h3 : (z.drop s).take (e - s) = (z.take e).drop s := by
-          rw [List.drop_take]
-        rw [h2, h3, List.take_append_drop]
-      rw [this, List.map_append, List.count_append, hc1] at htot
-      omega
-    have hres : (t.rmsliceRaw s e).parts.zip (t.rmsliceRaw s e).reducible
-        = z.take s ++ (((z.drop s).take (e - s)).filter (fun x => !x.2) ++ z.drop e) := by
-      simp only [rmsliceRaw]
-      rw [List.append_assoc, List.append_assoc,
-        List.zip_append (by simp [List.length_take, hwf]),
-        List.zip_append (by simp)]
-      have hmid : (t.parts.drop s |>.take (e - s)).zip (t.reducible.drop s |>.take (e - s))
-          = (z.drop s).take (e - s) := by
-        simp only [z, take_zip', drop_zip']
-      rw [hmid, filter_not_zip_falses]
-      simp only [z, take_zip', drop_zip']
-    rw [hres]
-    show _ = eraseRanks A B 0 z
-    conv => rhs; rw [hsplit]
-    rw [eraseRanks_append, eraseRanks_append, hc1, hc2]
-    rw [eraseRanks_below _ _ _ _ (by omega), eraseRanks_inside _ _ _ _ (by omega) (by omega),
-      eraseRanks_above _ _ _ _ (by omega)]
-  · -- the length drops by the number removed
-    have hwf' : (t.rmsliceRaw s e).WF := by
-      simp only [WF, rmsliceRaw, List.length_append, List.length_take, List.length_drop,
-        List.length_replicate]
-      omega
-    rw [len_eq_count _ hwf', hn]
-    simp only [rmsliceRaw, List.count_append]
-    have hfalse : (List.replicate
-        (List.map (fun x => x.fst) (List.filter (fun x => !x.snd)
-          ((List.take (e - s) (List.drop s t.parts)).zip
-            (List.take (e - s) (List.drop s t.reducible))))).length false).count true = 0 := by
-      simp [List.count_replicate]
-    rw [hfalse, hsc]
-    have hdrop : (t.reducible.drop e).count true = t.reducible.count true - B := by
-      have := List.take_append_drop e t.reducible
-      have h4 : t.reducible.count true = (t.reducible.take e).count true + (t.reducible.drop e).count true := by
-        conv => lhs; rw [← this]
-        rw [List.count_append]
-      omega
-    rw [hdrop]
-    have : B ≤ t.reducible.count true := by omega
-    omega
+      t'.len = t.len - (clamp t.len b t.len - clamp t.len a 0) :=
+  rmslice_spec t h a b hab
 
 /-- non-vacuity: a concrete testcase with both kinds of parts meets the hypotheses, and the
 deletion removes what the statement says. -/
